@@ -8,11 +8,13 @@
    any sibling values, any order): GeoJSON iff some top-level member is "type" with one of the nine names; HAR iff
    some top-level "log" member is an object with a version / creator / entries member; glTF iff some top-level
    "asset" member is an object whose "version" member is "1.0" or "2.0".  Child order under json gives the
-   priority geojson > har > gltf > plain json.
+   priority geojson > har > gltf > plain json.  Truncated mode (C10_truncated): when the header is cut anywhere
+   behind the value of a top-level member whose status is a hit, the detector still accepts, whatever members
+   precede it and wherever the cut falls afterwards ("as long as the deciding member lies within the header").
    Tie to Go: json / c10 correspondence channels; subtype_spec (an independent member splitter) judges Detect. *)
 From Verif Require Import Base.Bytes Model.Types Model.Json Model.Detect Gen.TreeData Gen.Tables
   Spec.JsonSubtype Spec.SpecQueries Spec.JsonGrammar Spec.JsonGrammar8259 Spec.JsonQuery
-  Proofs.JsonPath Proofs.JsonQueryP.
+  Proofs.JsonPath Proofs.JsonQueryP Proofs.JsonQsatMono Proofs.JsonQueryTrunc.
 From Coq Require Import Lia.
 
 Theorem C10_queries_realise_spec :
@@ -179,6 +181,42 @@ Proof.
   - intros d v h Hq Hno. eapply non_object_status; [|exact Hq|exact Hno]. intros q [<-|[]]; cbn; lia.
 Qed.
 Print Assumptions C10_gltf_asset_value.
+
+(* querySatisfied is never reset, whatever a scan returns *)
+Theorem C10_flag_monotone :
+  forall maxrec qs tk fuel w b lvl s, qsat s = true -> qsat (snd (go maxrec qs tk fuel w b lvl s)) = true.
+Proof. intros maxrec qs tk fuel. exact (go_mono maxrec qs tk fuel). Qed.
+Print Assumptions C10_flag_monotone.
+
+(* truncated mode: p is a cut of an object document raw = p ++ rest, of the shape
+     ws { complete-members , ... deciding-member-through-its-value ws anything-the-cut-left
+   and the limit does not exceed its length *)
+Theorem C10_truncated :
+  forall q qs, queries_of q = qs -> qs <> [] ->
+  forall d0 raw rest w ms1 m w3' r d limit,
+    SDoc d0 raw -> d0 <= 4096 -> S d <= 4096 ->
+    raw = (w ++ 123%N :: members_comma ms1 ++ member_text m ++ w3' ++ r) ++ rest ->
+    WS w -> Forall (member_ok qs [] d) ms1 -> member_ok qs [] d m -> member_status qs [] m = true -> WS w3' ->
+    Proofs.JsonComplete.sep r -> limit <> 0%N ->
+    (limit <= N.of_nat (length (w ++ 123%N :: members_comma ms1 ++ member_text m ++ w3' ++ r)))%N ->
+    json_family q tok_object (w ++ 123%N :: members_comma ms1 ++ member_text m ++ w3' ++ r) limit = true.
+Proof.
+  intros q qs Eq Hne d0 raw rest w ms1 m w3' r d limit Hdoc Hd0 Hd Hsplit Hw Hms1 Hm Hst Hw3 Hr Hl0 Hlim.
+  unfold json_family. rewrite Eq.
+  apply (json_query_trunc maxrec qs tokens Hne tok_object) with (d0 := d0) (raw := raw) (q := rest) (d := d); try assumption.
+  vm_compute. discriminate.
+Qed.
+Print Assumptions C10_truncated.
+
+(* for GeoJSON the status of a top-level member is decided by its key and text *)
+Theorem C10_geo_member_status :
+  forall m, beq (b "type") (m_key m) = true -> existsb (fun name => beq (quoted name) (m_val m)) geo_types = true ->
+    member_status spec_geo [] m = true.
+Proof.
+  intros m Hk Hv. unfold member_status, direct, spec_geo. cbn [query_path_match fst rev app lbeq]. rewrite Hk. cbn [andb].
+  unfold text_hit. cbn [snd]. unfold geo_types in *. cbn [map existsb] in *. rewrite Hv. reflexivity.
+Qed.
+Print Assumptions C10_geo_member_status.
 
 (* non-vacuity: a member list with siblings of every shape before the deciding member *)
 Example C10_members_example :
